@@ -21,7 +21,7 @@ node.withs is the tuple of `with` context expressions (normalised text)
 enclosing the node, plus X for the idiom `X.acquire(); try: ... finally: X.release()`.
 """
 import ast
-from .model import AnalysisError, dump
+from .model import AnalysisError, dump, is_logging_call
 
 CATCH_ALL = ("Exception", "BaseException")
 
@@ -97,6 +97,10 @@ def expr_may_raise(e):
             continue
         if isinstance(n, ast.Call) and isinstance(n.func, ast.Name) and n.func.id in _TOTAL_BUILTINS and not n.keywords:
             skip.add(id(n.func))
+            continue
+        if isinstance(n, ast.Call) and is_logging_call(n):
+            for sub in ast.walk(n.func):
+                skip.add(id(sub))
             continue
         if isinstance(n, (ast.Call, ast.Subscript, ast.BinOp, ast.Yield, ast.YieldFrom, ast.Await,
                           ast.Starred, ast.JoinedStr)):
